@@ -8,9 +8,27 @@ use crate::wire::marshal::MarshalContext;
 use crate::wire::util::*;
 
 pub fn marshal_param(p: &params::Param, ctx: &mut MarshalContext) -> Result<(), MarshalError> {
+    marshal_param_at(p, ctx, 0)
+}
+
+/// `depth`: container levels around `p`. Values nested deeper than the receive side accepts
+/// (`MAX_NESTING_DEPTH`, a dict counts twice) are refused.
+fn marshal_param_at(
+    p: &params::Param,
+    ctx: &mut MarshalContext,
+    depth: usize,
+) -> Result<(), MarshalError> {
     match p {
         params::Param::Base(b) => marshal_base_param(b, ctx),
-        params::Param::Container(c) => marshal_container_param(c, ctx),
+        params::Param::Container(c) => marshal_container_param_at(c, ctx, depth),
+    }
+}
+
+fn enter(depth: usize, levels: usize) -> Result<usize, MarshalError> {
+    if depth + levels > crate::wire::validate_raw::MAX_NESTING_DEPTH {
+        Err(signature::Error::NestingTooDeep.into())
+    } else {
+        Ok(depth + levels)
     }
 }
 
@@ -18,6 +36,7 @@ fn marshal_array(
     array: &[params::Param],
     sig: &signature::Type,
     ctx: &mut MarshalContext,
+    depth: usize,
 ) -> Result<(), MarshalError> {
     ctx.align_to(4);
     let len_pos = ctx.buf.len();
@@ -29,7 +48,7 @@ fn marshal_array(
     ctx.align_to(sig.get_alignment());
     let content_pos = ctx.buf.len();
     for p in array {
-        marshal_param(p, ctx)?;
+        marshal_param_at(p, ctx, depth)?;
     }
     let len = ctx.buf.len() - content_pos;
     if len > crate::wire::unmarshal::MAX_ARRAY_LEN {
@@ -43,18 +62,26 @@ fn marshal_array(
     Ok(())
 }
 
-fn marshal_struct(params: &[params::Param], ctx: &mut MarshalContext) -> Result<(), MarshalError> {
+fn marshal_struct(
+    params: &[params::Param],
+    ctx: &mut MarshalContext,
+    depth: usize,
+) -> Result<(), MarshalError> {
     if params.is_empty() {
         return Err(signature::Error::EmptyStruct.into());
     }
     ctx.align_to(8);
     for p in params {
-        marshal_param(p, ctx)?;
+        marshal_param_at(p, ctx, depth)?;
     }
     Ok(())
 }
 
-fn marshal_variant(var: &params::Variant, ctx: &mut MarshalContext) -> Result<(), MarshalError> {
+fn marshal_variant(
+    var: &params::Variant,
+    ctx: &mut MarshalContext,
+    depth: usize,
+) -> Result<(), MarshalError> {
     // the recorded signature must be the type of the value, else the receiver cannot make sense of the bytes
     if !value_has_type(&var.value, &var.sig) {
         return Err(signature::Error::InvalidSignature.into());
@@ -62,11 +89,15 @@ fn marshal_variant(var: &params::Variant, ctx: &mut MarshalContext) -> Result<()
     let mut sig_str = String::new();
     var.sig.to_str(&mut sig_str);
     marshal_signature(&sig_str, ctx.buf)?;
-    marshal_param(&var.value, ctx)?;
+    marshal_param_at(&var.value, ctx, depth)?;
     Ok(())
 }
 
-fn marshal_dict(dict: &params::DictMap, ctx: &mut MarshalContext) -> Result<(), MarshalError> {
+fn marshal_dict(
+    dict: &params::DictMap,
+    ctx: &mut MarshalContext,
+    depth: usize,
+) -> Result<(), MarshalError> {
     ctx.align_to(4);
     let len_pos = ctx.buf.len();
     // placeholder. The lenght will be written here later
@@ -80,7 +111,7 @@ fn marshal_dict(dict: &params::DictMap, ctx: &mut MarshalContext) -> Result<(), 
         // elements are aligned to 8
         ctx.align_to(8);
         marshal_base_param(key, ctx)?;
-        marshal_param(value, ctx)?;
+        marshal_param_at(value, ctx, depth)?;
     }
     let len = ctx.buf.len() - content_pos;
     if len > crate::wire::unmarshal::MAX_ARRAY_LEN {
@@ -126,31 +157,39 @@ pub fn marshal_container_param(
     p: &params::Container,
     ctx: &mut MarshalContext,
 ) -> Result<(), MarshalError> {
+    marshal_container_param_at(p, ctx, 0)
+}
+
+fn marshal_container_param_at(
+    p: &params::Container,
+    ctx: &mut MarshalContext,
+    depth: usize,
+) -> Result<(), MarshalError> {
     match p {
         params::Container::Array(params) => {
             params::validate_array(&params.values, &params.element_sig)?;
-            marshal_array(&params.values, &params.element_sig, ctx)?;
+            marshal_array(&params.values, &params.element_sig, ctx, enter(depth, 1)?)?;
         }
         params::Container::ArrayRef(params) => {
             params::validate_array(params.values, &params.element_sig)?;
-            marshal_array(params.values, &params.element_sig, ctx)?;
+            marshal_array(params.values, &params.element_sig, ctx, enter(depth, 1)?)?;
         }
         params::Container::Struct(params) => {
-            marshal_struct(params, ctx)?;
+            marshal_struct(params, ctx, enter(depth, 1)?)?;
         }
         params::Container::StructRef(params) => {
-            marshal_struct(params, ctx)?;
+            marshal_struct(params, ctx, enter(depth, 1)?)?;
         }
         params::Container::Dict(params) => {
             params::validate_dict(&params.map, params.key_sig, &params.value_sig)?;
-            marshal_dict(&params.map, ctx)?;
+            marshal_dict(&params.map, ctx, enter(depth, 2)?)?;
         }
         params::Container::DictRef(params) => {
             params::validate_dict(params.map, params.key_sig, &params.value_sig)?;
-            marshal_dict(params.map, ctx)?;
+            marshal_dict(params.map, ctx, enter(depth, 2)?)?;
         }
         params::Container::Variant(variant) => {
-            marshal_variant(variant, ctx)?;
+            marshal_variant(variant, ctx, enter(depth, 1)?)?;
         }
     }
     Ok(())
